@@ -337,6 +337,13 @@ def register(R):
             out['body_is_a_window_reader'] = (B(okb), ['C01'])
             if okb:
                 out['body_starts_with_progress_reporting_off'] = (B(bh.fields.get('_callbacks_enabled') is False), ['C09'])
+                cbs = bh.fields.get('_callbacks')
+                cbs = cbs.val if isinstance(cbs, Opt) else cbs
+                citems = st1.obj(cbs).items if isinstance(cbs, Ref) and st1.obj(cbs).kind == 'list' else None
+                created = [oid for oid, hh in st1.heap.items() if oid not in c.old.st.heap and hh.kind == 'obj' and hh.cls is not None
+                           and hh.cls.name == 'AggregatedProgressCallback']
+                out['body_reports_to_the_progress_aggregator_built_for_it'] = (B(
+                    citems is not None and all(isinstance(x, Ref) for x in citems) and sorted(x.oid for x in citems) == sorted(created)), ['C09'])
                 out['body_is_throttled_iff_a_limiter_is_configured'] = (limiter_clause(st1, c.a_upload_input_manager, bh.fields['_fileobj']), ['C13'])
                 start, size = to_int_term(bh.fields['_start_byte']), to_int_term(bh.fields['_size'])
                 total = size_val(st1, c.a_transfer_future)
@@ -445,9 +452,13 @@ def register(R):
             out['part_body_is_throttled_iff_a_limiter_is_configured'] = (limiter_clause(st1, outer1['upload_input_manager'], bh.fields['_fileobj']), ['C13'])
             # reporting starts switched off: botocore's request-created handlers switch it on when the body is sent
             out['part_body_starts_with_progress_reporting_off'] = (B(bh.fields.get('_callbacks_enabled') is False), ['C09'])
+            created = [oid for oid, hh in st1.heap.items() if oid not in st0.heap and hh.kind == 'obj' and hh.cls is not None
+                       and hh.cls.name == 'AggregatedProgressCallback']
             out['part_body_has_its_own_progress_aggregator'] = (B(
                 citems is not None and all(isinstance(x, Ref) for x in citems) and len(aggs) == len(citems)
-                and all(a.oid not in st0.heap for a in aggs)), ['C09'])
+                and all(a.oid not in st0.heap for a in aggs)
+                # ... and the aggregator built for this part is the one the body reports to (not dropped on the way)
+                and sorted(a.oid for a in aggs) == sorted(created)), ['C09'])
             if kind == 'filename':
                 total = size_val(st1, outer1['transfer_future'])
                 rdr = reader_of(st1, evs, bh.fields['_fileobj'])
